@@ -74,12 +74,14 @@ type c13Reader struct {
 	first []c13First
 	// paused: the reader does not take anything off the wire (its receive side is stalled)
 	paused atomic.Bool
-	wmu    sync.Mutex
-	conn   net.Conn
-	ready  chan struct{}
-	once   sync.Once
-	acks   atomic.Int64
-	conns  atomic.Int64
+	// late: reports/events flushed between receiving CloseConnection and answering it
+	late  []c13First
+	wmu   sync.Mutex
+	conn  net.Conn
+	ready chan struct{}
+	once  sync.Once
+	acks  atomic.Int64
+	conns atomic.Int64
 	// modes: how the first connections go wrong, one character per connection, before the
 	// normal one: 's' the device's SetReaderConfig is answered with an error status, 'x' the
 	// connection drops right after the connection event, 'y' it drops when SetReaderConfig
@@ -149,6 +151,7 @@ func c13FirstMessage(d, n int, mode byte) c13First {
 // the n-th connection of device d announces itself with a distinct time stamp
 func c13ConnUTC(d, n int) uint64 { return 1600000000000000 + uint64(1000*d+n) }
 func c13ConnIdx(d, n int) int    { return 2000 + 100*d + n }
+func c13LateIdx(d, m int) int    { return 3000 + 100*d + m }
 
 var c13Replies = map[int]int{1: 11, 2: 12, 3: 13, 20: 30, 24: 34, 26: 36, 44: 54}
 
@@ -273,6 +276,15 @@ func (rd *c13Reader) serve() {
 			case typ == c15MsgKeepAliveAck:
 				rd.acks.Add(1)
 			case typ == c15MsgCloseConnection:
+				// a reader flushes what it has before it answers: one report and one event per close
+				rd.fmu.Lock()
+				m := len(rd.late)
+				lr := c13FirstMessage(rd.idx, 500+m, 'o')
+				le := c13FirstMessage(rd.idx, 501+m, '2')
+				rd.late = append(rd.late, lr, le)
+				rd.fmu.Unlock()
+				rd.write(c15Frame(lr.typ, uint32(8000+m), lr.payload))
+				rd.write(c15Frame(le.typ, uint32(8001+m), le.payload))
 				rd.write(c15Frame(c15MsgCloseConnectionResponse, id, c15Status(0)))
 				time.Sleep(2 * time.Millisecond)
 				c.Close()
@@ -342,7 +354,36 @@ func c13Report(v, i int, rnd *rand.Rand) *llrp.ROAccessReport {
 		r := rs
 		return llrp.TagReportData{EPC96: llrp.EPC96{EPC: epc}, ROSpecID: &r, AntennaID: &ant, PeakRSSI: &rssi, TagSeenCount: &cnt}
 	}
-	switch v % 7 {
+	switch v % 9 {
+	case 7: // heterogeneous tags: each with another set of optional parameters, 96-bit and longer EPCs mixed
+		a := tag(0)
+		f := llrp.FirstSeenUTC(1600000000000000 + uint64(i))
+		ci := llrp.ChannelIndex(7)
+		crc := llrp.C1G2CRC(0x1234)
+		a.FirstSeenUTC, a.ChannelIndex, a.C1G2CRC = &f, &ci, &crc
+		a.Custom = []llrp.Custom{{VendorID: 25882, Subtype: 1, Data: []byte{1, 2, 3}}}
+		b := llrp.TagReportData{EPCData: llrp.EPCData{EPCNumBits: 128, EPC: []byte{0, 1, 2, 3, 4, 5, 6, 7, 8, 9, 10, 11, 12, 13, 14, byte(i)}}}
+		c := tag(2)
+		c.ROSpecID, c.AntennaID, c.PeakRSSI = nil, nil, nil
+		lu := llrp.LastSeenUptime(77000 + uint64(i))
+		as := llrp.AccessSpecID(9)
+		c.LastSeenUptime, c.AccessSpecID = &lu, &as
+		d := llrp.TagReportData{EPCData: llrp.EPCData{EPCNumBits: 20, EPC: []byte{0xAB, 0xCD, 0xE0}}}
+		sp := llrp.SpecIndex(2)
+		d.SpecIndex = &sp
+		e := tag(4)
+		return &llrp.ROAccessReport{TagReportData: []llrp.TagReportData{a, b, c, d, e}}
+	case 8: // heterogeneous survey data and custom parameters next to tags
+		r1, r2 := rs, llrp.SpecIndex(3)
+		return &llrp.ROAccessReport{
+			TagReportData: []llrp.TagReportData{tag(0), {EPCData: llrp.EPCData{EPCNumBits: 64, EPC: []byte{9, 8, 7, 6, 5, 4, 3, byte(i)}}}},
+			RFSurveyReportData: []llrp.RFSurveyReportData{
+				{ROSpecID: &r1, FrequencyRSSILevelEntries: []llrp.FrequencyRSSILevelEntry{{Frequency: 902750, Bandwidth: 500, AverageRSSI: -60, PeakRSSI: -50, UTCTimestamp: llrp.UTCTimestamp(1600000000000000 + uint64(i))}},
+					Custom: []llrp.Custom{{VendorID: 1, Subtype: 2, Data: []byte{byte(i)}}}},
+				{SpecIndex: &r2, FrequencyRSSILevelEntries: []llrp.FrequencyRSSILevelEntry{
+					{Frequency: 903250, Bandwidth: 250, AverageRSSI: -61, PeakRSSI: -51, Uptime: llrp.Uptime(5000 + i)},
+					{Frequency: 903750, Bandwidth: 250, AverageRSSI: -62, PeakRSSI: -52, Uptime: llrp.Uptime(6000 + i)}}}},
+			Custom: []llrp.Custom{{VendorID: 25882, Subtype: uint32(i), Data: []byte{1}}, {VendorID: 7, Subtype: 0, Data: []byte{2, 3, 4, 5}}}}
 	case 0: // a report without tags, told apart by a custom parameter
 		return &llrp.ROAccessReport{Custom: []llrp.Custom{{VendorID: 25882, Subtype: uint32(i), Data: []byte{byte(i), 1, 2}}}}
 	case 1:
@@ -460,7 +501,25 @@ type c13Step struct {
 	used     int
 }
 
+// c13ProbeProcessReport answers the question "what would processReport do with a report that
+// carries only the uptime parameters": it calls the function directly (the supervised code never
+// does on the unchanged tree: l.readerStart is never assigned, see notes/C13.md)
+func c13ProbeProcessReport() (res string) {
+	defer func() {
+		if r := recover(); r != nil {
+			res = fmt.Sprintf("probe processReport(uptime-only tag): panics: %v", r)
+		}
+	}()
+	f := llrp.FirstSeenUptime(1000)
+	rep := &llrp.ROAccessReport{TagReportData: []llrp.TagReportData{{EPC96: llrp.EPC96{EPC: make([]byte, 12)}, FirstSeenUptime: &f}}}
+	processReport(time.Now(), rep)
+	return "probe processReport(uptime-only tag): returns"
+}
+
 func c13RunScenario(f []string) string {
+	if len(f) >= 1 && f[0] == "probe" {
+		return c13ProbeProcessReport()
+	}
 	if len(f) < 3 {
 		return "!badrequest"
 	}
@@ -483,9 +542,14 @@ func c13RunScenario(f []string) string {
 	stopCollect := make(chan struct{})
 	collectDone := make(chan struct{})
 	crnd := rand.New(rand.NewSource(seed + 1))
+	var pausedUntil atomic.Int64 // the consumer of the channel takes nothing before this time (unix nano)
+	collectorPaused := func() bool { return time.Now().UnixNano() < pausedUntil.Load() }
 	go func() {
 		defer close(collectDone)
 		for {
+			for collectorPaused() {
+				time.Sleep(time.Millisecond)
+			}
 			select {
 			case v := <-asyncCh:
 				gmu.Lock()
@@ -595,7 +659,12 @@ func c13RunScenario(f []string) string {
 			if err := w.UnmarshalBinary(b); err != nil {
 				return "!selfdecode " + err.Error()
 			}
-			s.payload, s.typ, s.want = b, c15MsgROAccessReport, w
+			// the reference is the value the script built, before any encoding or decoding; the
+			// library's own decoding of the bytes must agree with it to begin with
+			if !reflect.DeepEqual(w, m) {
+				notes = append(notes, fmt.Sprintf("!decoder-vs-source:%d", i))
+			}
+			s.payload, s.typ, s.want = b, c15MsgROAccessReport, m
 		case 'E':
 			m := c13Event(s.variant, i)
 			b, err := m.MarshalBinary()
@@ -606,7 +675,10 @@ func c13RunScenario(f []string) string {
 			if err := w.UnmarshalBinary(b); err != nil {
 				return "!selfdecode " + err.Error()
 			}
-			s.payload, s.typ, s.want = b, c15MsgReaderEventNotification, w
+			if !reflect.DeepEqual(w, m) {
+				notes = append(notes, fmt.Sprintf("!decoder-vs-source:%d", i))
+			}
+			s.payload, s.typ, s.want = b, c15MsgReaderEventNotification, m
 		case 'M', 'L':
 			// well-formed and large: 'M' just under llrp.MaxBufferedPayloadSz (must be published),
 			// 'L' above it (Message.data refuses it: treated like a message that fails to decode)
@@ -646,7 +718,7 @@ func c13RunScenario(f []string) string {
 			if (&llrp.ReaderEventNotification{}).UnmarshalBinary(s.payload) == nil {
 				notes = append(notes, "!badgen:"+st)
 			}
-		case 'K', 'C', 'T', 'U', 'X', 'Z', 'F', 'G':
+		case 'K', 'C', 'T', 'U', 'X', 'Z', 'F', 'G', 'P':
 		case '+':
 			continue
 		default:
@@ -721,7 +793,7 @@ func c13RunScenario(f []string) string {
 					return
 				}
 				rd.fmu.Lock()
-				need := len(rd.first) + earlyWant[di]
+				need := len(rd.first) + len(rd.late) + earlyWant[di]
 				rd.fmu.Unlock()
 				for _, p := range perDev[di][:k] {
 					// (a successful connection event in mid-stream is published only after the
@@ -730,8 +802,11 @@ func c13RunScenario(f []string) string {
 						need++
 					}
 				}
-				for dl := time.Now().Add(1500 * time.Millisecond); countDev(names[di]) < need && time.Now().Before(dl); {
+				for dl := time.Now().Add(1500 * time.Millisecond); countDev(names[di]) < need && (time.Now().Before(dl) || collectorPaused()); {
 					time.Sleep(2 * time.Millisecond)
+					if collectorPaused() {
+						dl = time.Now().Add(1500 * time.Millisecond)
+					}
 				}
 				if got := countDev(names[di]); got < need {
 					heldBack.Add(int64(need - got))
@@ -742,6 +817,10 @@ func c13RunScenario(f []string) string {
 			for k, s := range perDev[di] {
 				time.Sleep(delays[s.idx%len(delays)])
 				switch s.kind {
+				case 'P':
+					// back-pressure: the consumer of the asynchronous-values channel takes nothing
+					// for variant/10 seconds; every device goes on publishing meanwhile
+					pausedUntil.Store(time.Now().Add(time.Duration(s.variant) * 100 * time.Millisecond).UnixNano())
 				case 'F':
 					// the reader's receive side stalls: it stops taking bytes off the wire while a
 					// large request is on its way (so the client's writer blocks in Write), and its
@@ -868,7 +947,21 @@ func c13RunScenario(f []string) string {
 		for di, rd := range readers {
 			rd.fmu.Lock()
 			firsts := append([]c13First{}, rd.first...)
+			lates := append([]c13First{}, rd.late...)
 			rd.fmu.Unlock()
+			for m, fm := range lates {
+				if fm.typ == c15MsgROAccessReport {
+					w := &llrp.ROAccessReport{}
+					if w.UnmarshalBinary(fm.payload) == nil {
+						cs = append(cs, &c13Step{dev: di, idx: c13LateIdx(di, m), kind: 'R', want: w})
+					}
+				} else {
+					ce := &llrp.ReaderEventNotification{}
+					if ce.UnmarshalBinary(fm.payload) == nil {
+						cs = append(cs, &c13Step{dev: di, idx: c13LateIdx(di, m), kind: 'E', want: ce})
+					}
+				}
+			}
 			for n, fm := range firsts {
 				if fm.typ == c15MsgROAccessReport {
 					w := &llrp.ROAccessReport{}
@@ -902,8 +995,11 @@ func c13RunScenario(f []string) string {
 	deadline := time.Now().Add(10 * time.Second)
 	for last, since := count(), time.Now(); last < want && time.Now().Before(deadline) && time.Since(since) < time.Second; {
 		time.Sleep(2 * time.Millisecond)
-		if n := count(); n != last {
+		if n := count(); n != last || collectorPaused() {
 			last, since = n, time.Now()
+			if collectorPaused() {
+				deadline = time.Now().Add(10 * time.Second)
+			}
 		}
 	}
 	// quiescence: nothing more for a while (duplicates would show up here)
@@ -932,6 +1028,25 @@ func c13RunScenario(f []string) string {
 		}(names[i])
 	}
 	rwg.Wait()
+	// what the readers flushed while the connections were being shut down must arrive as well
+	wantAll := 0
+	for _, c := range connSteps() {
+		if c.want != nil {
+			wantAll++
+		}
+	}
+	for _, s := range steps {
+		if s.want != nil {
+			wantAll++
+		}
+	}
+	for last, since := count(), time.Now(); last < wantAll && time.Since(since) < 700*time.Millisecond; {
+		time.Sleep(2 * time.Millisecond)
+		if n := count(); n != last {
+			last, since = n, time.Now()
+		}
+	}
+	time.Sleep(60 * time.Millisecond)
 	close(stopCollect)
 	<-collectDone
 
